@@ -19,6 +19,9 @@ type c20Job struct {
 	N        int    `json:"n"`        // evaluation window / interval
 	Cooldown int    `json:"cooldown"` // minutes
 	Seq      string `json:"seq"`      // T = condition held, F = did not, D = 61 minutes pass, R = server restart
+	// Hooks: "" = the contact point has one webhook (the counting sink); "sink+dead" = a second webhook follows whose
+	// endpoint refuses connections (a notification counts as sent when at least one channel took it)
+	Hooks string `json:"hooks,omitempty"`
 }
 
 var c20Seq int64
@@ -48,6 +51,9 @@ func c20Run(w0 *kernel.Worker, j *c20Job, rep *kernel.Report) (*Fail, error) {
 	js := map[string]string{"Content-Type": "application/json"}
 	hook := "/hook" + tag
 	cbody := fmt.Sprintf(`{"contact_name":"c%s","email":[],"slack":[],"webhook":[{"webhook":"%s%s"}]}`, tag, sink.URL, hook)
+	if j.Hooks == "sink+dead" {
+		cbody = fmt.Sprintf(`{"contact_name":"c%s","email":[],"slack":[],"webhook":[{"webhook":"%s%s"},{"webhook":"http://127.0.0.1:9/dead%s"}]}`, tag, sink.URL, hook, tag)
+	}
 	r, err := httpCall(w, "query", "POST", "/api/alerts/createContact", cbody, js)
 	if err != nil {
 		return die(err)
@@ -282,7 +288,7 @@ func c20Sequences(n int, cooldown int, tier string) []string {
 
 func C20() int {
 	rep := kernel.NewReport("C20", "model_checking")
-	rep.Rule = "alert machine: window/interval N ∈ {1,2,3} × cool-down ∈ {0, 60 min} × every evaluation-outcome sequence over {held, not held} of length ≤ N+3 (N+5 in thorough), plus three sequences for N = 102 (more outcomes than one page of the history), for cool-down 60 additionally " +
+	rep.Rule = "alert machine: window/interval N ∈ {1,2,3} × cool-down ∈ {0, 60 min} × every evaluation-outcome sequence over {held, not held} of length ≤ N+3 (N+5 in thorough), plus three sequences for N = 102 (more outcomes than one page of the history), for N = 1 every sequence also with a contact point of two webhooks the second of which refuses connections, for cool-down 60 additionally " +
 		"with the step '61 minutes pass' at every position; each outcome goes through the real handleAlertCondition of an alert created by the real " +
 		"creation path on the sqlite store; after every evaluation the state read through the HTTP API must be Firing iff the last N outcomes held, Pending iff the latest held but not all N, Normal otherwise; " +
 		"webhook deliveries counted by a loopback sink must match 'on entering Firing, repeated only after the cool-down, once on return to Normal'; one history row per evaluation. keyed stores: see coverage.kv_*. " +
@@ -296,6 +302,9 @@ func C20() int {
 				for _, cd := range []int{0, 60} {
 					for _, s := range c20Sequences(n, cd, rep.Tier) {
 						emit(c20Job{N: n, Cooldown: cd, Seq: s})
+						if n == 1 {
+							emit(c20Job{N: n, Cooldown: cd, Seq: s, Hooks: "sink+dead"})
+						}
 					}
 				}
 			}
@@ -307,7 +316,7 @@ func C20() int {
 			emit(c20Job{N: long, Cooldown: 0, Seq: strings.Repeat("T", long) + "F" + strings.Repeat("T", long)})
 		},
 		Run:        c20Run,
-		Key:        func(j *c20Job) string { return fmt.Sprintf("%d|%d|%s", j.N, j.Cooldown, j.Seq) },
+		Key:        func(j *c20Job) string { return fmt.Sprintf("%d|%d|%s|%s", j.N, j.Cooldown, j.Seq, j.Hooks) },
 		Nontrivial: func(j *c20Job) bool { return strings.Contains(j.Seq, "T") && strings.Contains(j.Seq, "F") },
 	}
 	only := os.Getenv("VERIF_C20_ONLY") // development aid: run one part
